@@ -15,7 +15,8 @@ RULE = ('build: 4 message classes x drawn subset of optional fields x no-reply/n
         'those bytes recovers the same. parse: the same abstract message reference-encoded in either byte order with '
         'permuted header fields and 0-2 unknown field codes must parse to the same message. reject: one name replaced '
         'by an invalid one / reserved path / size limit at len-1,len,len+1 (and the real 2^27 boundary) must raise '
-        'MarshallingError. Non-trivial = (>=1 optional field and a body) or a non-default flag or big-endian / '
+        'MarshallingError; reject_affixed: every message class x name-carrying argument x valid name with one foreign '
+        'character (newline, CR, NUL, blank, separator, non-ASCII) in front or behind, exhaustive. Non-trivial = (>=1 optional field and a body) or a non-default flag or big-endian / '
         'permuted / unknown-field input; distinct = distinct case JSON.')
 ASSUMPTIONS = ['sender is set through a constructor only where one takes it (ErrorMessage)',
                'unknown header field codes must be ignored, not preserved']
@@ -182,13 +183,36 @@ def reject_case(draw, tier):
         arg = draw(st.sampled_from(NAME_ARGS[msg['type']]))
         rec = c18.REC[c18.ARG_KIND[arg]]
         bad = draw(st.one_of(c18.boundary_name().map(lambda c: c['s']),
-                             st.text(alphabet=st.sampled_from(c18.ALPHABET), max_size=6)))
+                             st.text(alphabet=st.sampled_from(c18.ALPHABET), max_size=6),
+                             c18.affixed_name(c18.ARG_KIND[arg]), c18.affixed_name(c18.ARG_KIND[arg])))
         return {'kind': 'name', 'msg': msg, 'arg': arg, 'value': bad, 'valid': rec(bad)}
     if kind == 'reserved':
         msg = draw(S.message(mtypes=(1,), body_depth=1, with_sender=False))
         msg['fields']['path'] = '/org/freedesktop/DBus/Local'
         return {'kind': 'reserved', 'msg': msg}
     return {'kind': 'limit', 'msg': msg, 'delta': draw(st.sampled_from([-9, -1, 0, 1, 8]))}
+
+
+AFFIXES = ['\n', '\r', '\r\n', '\t', ' ', '\x00', '\x0b', '\u2028', '.', '/', ':', '-', 'é']
+BASES = {'path': ['/o', '/a/b_c'], 'member': ['Ping', 'm_2'], 'interface': ['a.b', 'org.verif.If_1'],
+         'destination': ['c.d', ':1.42'], 'error_name': ['a.b.E', 'org.verif.Error.X9']}
+
+
+def enum_reject_affixed(tier):
+    """Every message class x every name-carrying argument x a valid name with one foreign character in front or behind."""
+    fields = {1: {'path': '/o', 'member': 'M', 'interface': 'a.b', 'destination': 'c.d'},
+              2: {'reply_serial': 5, 'destination': 'c.d'},
+              3: {'error_name': 'a.b.E', 'reply_serial': 5, 'destination': 'c.d'},
+              4: {'path': '/o', 'member': 'S', 'interface': 'a.b', 'destination': 'c.d'}}
+    for t in (1, 2, 3, 4):
+        msg = {'type': t, 'fields': dict(fields[t]), 'sig': '', 'trees': [], 'pres': [], 'no_reply': False,
+               'no_auto': False, 'serial': 7, 'little': True}
+        for arg in NAME_ARGS[t]:
+            rec = c18.REC[c18.ARG_KIND[arg]]
+            for base in BASES[arg]:
+                for ch in AFFIXES:
+                    for v in (base + ch, ch + base):
+                        yield {'kind': 'name', 'msg': msg, 'arg': arg, 'value': v, 'valid': rec(v)}
 
 
 def run_reject(case):
@@ -288,6 +312,9 @@ SUBCHECKS = [
              n={'quick': 400, 'thorough': 5000}),
     Subcheck('reject', run_reject, classify_reject, strategy=lambda tier: reject_case(tier),
              n={'quick': 300, 'thorough': 2500}),
+    Subcheck('reject_affixed', run_reject, classify_reject, enumerate=enum_reject_affixed, shards={'quick': 2, 'thorough': 2},
+             exhaustive_note='4 message classes x their name-carrying arguments x 2 valid names x 13 foreign characters '
+                             '(newline, CR, NUL, blanks, separators, non-ASCII) x {in front, behind}'),
     Subcheck('limit128', run_real_limit, lambda c: (True, ['real_2^27_boundary']), enumerate=enum_real_limit,
              shards={'quick': 1, 'thorough': 1},
              exhaustive_note='the two messages of exactly 2^27 and 2^27+1 bytes'),
